@@ -10,6 +10,7 @@ Public API (everything takes a `random.Random`):
     rand_doc(rng, size=7, deep=False)          -> tree (one root element)
     all_shapes(n)                              -> every unlabeled ordered tree shape with n nodes
     doc_events(tree, ns_events=False)          -> list of genshi events (positions (None,-1,-1))
+    doc_events_spans(tree, ns_events=False)    -> (events, {node path: (first, last) index of its events})
     doc_xml(tree)                              -> XML text of the tree (for messages / findings)
     doc_size(tree), doc_depth(tree)
     rand_path(rng, profile=FULL, steps=None)   -> path text (a union of location paths)
@@ -167,21 +168,28 @@ def doc_xml(t):
     return '<%s/>' % ' '.join(parts)
 
 
-def doc_events(t, ns_events=False, prolog=None):
-    """the genshi event stream of the tree (what the XML parser would deliver, positions blank)"""
+def doc_events_spans(t, ns_events=False, prolog=None):
+    """(events, spans): the genshi event stream of the tree (what the XML parser would deliver,
+    positions blank) and, for every node given by its tuple of child indexes, the slice
+    (first, last) of its own events (START..END for an element, without the namespace events
+    that wrap it)"""
     from genshi.core import QName, Attrs, START, END, TEXT, COMMENT, PI, START_NS, END_NS
     pos = (None, -1, -1)
     out = []
+    spans = {}
 
     def q(ns, name):
         return QName('{%s}%s' % (ns, name) if ns else name)
 
-    def go(n, inherited):
+    def go(n, inherited, path):
         if 't' in n:
+            spans[path] = (len(out), len(out))
             out.append((TEXT, n['t'], pos))
         elif 'c' in n:
+            spans[path] = (len(out), len(out))
             out.append((COMMENT, n['c'], pos))
         elif 'p' in n:
+            spans[path] = (len(out), len(out))
             out.append((PI, (n['p'][0], n['p'][1]), pos))
         else:
             ns, name = n['e']
@@ -189,16 +197,23 @@ def doc_events(t, ns_events=False, prolog=None):
             if decl:
                 out.append((START_NS, ('', ns), pos))
             tag = q(ns, name)
+            first = len(out)
             out.append((START, (tag, Attrs([(q(a[0], a[1]), a[2]) for a in n.get('a', [])])), pos))
-            for k in n.get('k', []):
-                go(k, ns if decl else inherited)
+            for i, k in enumerate(n.get('k', [])):
+                go(k, ns if decl else inherited, path + (i,))
+            spans[path] = (first, len(out))
             out.append((END, tag, pos))
             if decl:
                 out.append((END_NS, '', pos))
     for p in prolog or []:
-        go(p, '')
-    go(t, '')
-    return out
+        go(p, '', ('prolog',))
+    go(t, '', ())
+    return out, spans
+
+
+def doc_events(t, ns_events=False, prolog=None):
+    """the genshi event stream of the tree"""
+    return doc_events_spans(t, ns_events, prolog)[0]
 
 
 # --------------------------------------------------------------------------
@@ -506,12 +521,21 @@ OUTSIDE = [
     ('a[count(@n)]', 'function'), ('a[last()]', 'function'), ('a[position()=1]', 'function'),
     ('a[string(@n)="1"]', 'function'), ('a[sum(@n)]', 'function'), ('a[lang("en")]', 'function'),
     ('a[id("x")]', 'function'), ('a[position()<3]', 'function'),
-    ('a[1+1]', 'arithmetic'), ('a[@n - 1]', 'arithmetic'), ('a[@n*2=4]', 'arithmetic'), ('a[@n div 2=1]', 'arithmetic'),
-    ('a[@n mod 2=1]', 'arithmetic'), ('a[-1]', 'arithmetic'), ('a[2 - 1]', 'arithmetic'),
-    ('a[b]', 'path-in-predicate'), ('a[b/c]', 'path-in-predicate'), ('a[b="1"]', 'path-in-predicate'),
-    ('a[.="1"]', 'path-in-predicate'), ('a[*]', 'path-in-predicate'), ('a[text()]', 'path-in-predicate'),
-    ('a[@n/b]', 'path-in-predicate'), ('a[not(b)]', 'path-in-predicate'), ('a[.//b]', 'path-in-predicate'),
-    ('a/@n[.="1"]', 'attribute-predicate'), ('@n/a', 'attribute-not-last'), ('a/@n/b', 'attribute-not-last'),
+    ('a[1+1]', 'arithmetic'), ('a[@n - 1]', 'arithmetic'), ('a[@n div 2=1]', 'arithmetic'),
+    ('a[@n mod 2=1]', 'arithmetic'), ('a[2 - 1]', 'arithmetic'), ('a[2*3]', 'arithmetic'),
+    ('a[b/c]', 'path-in-predicate'), ('a[.="1"]', 'path-in-predicate'), ('a[text()]', 'path-in-predicate'),
+    ('a[@n/b]', 'path-in-predicate'), ('a[.//b]', 'path-in-predicate'),
+    ('a/@n[.="1"]', 'attribute-predicate'),
+]
+
+# XPath 1.0 outside the documented subset that genshi ACCEPTS and evaluates differently
+# (finding C05-outside-not-rejected lists the first of each class as witness); used for the
+# model-vs-code correspondence only, the oracle does not generate them
+OUTSIDE_ACCEPTED = [
+    ('a[b]', 'path-in-predicate'), ('a[b="1"]', 'path-in-predicate'), ('a[*]', 'path-in-predicate'),
+    ('a[not(b)]', 'path-in-predicate'),
+    ('@n/a', 'attribute-not-last'), ('a/@n/b', 'attribute-not-last'),
+    ('a[-1]', 'arithmetic'), ('a[@n*2=4]', 'arithmetic'),
 ]
 
 
